@@ -666,3 +666,8 @@ def run(ctx):
     rule_page_start(ctx)
     rule_find_mapping(ctx)
     rule_plausible_stack(ctx)
+    # 'extends to the end of the containing mapping' and 'bytes equal the target's memory' need a reader that returns every readable
+    # byte of the requested range (same rule instances as C17/args, C17/prefix-only)
+    from rules import c17
+    c17.rule_args(ctx, R="C06/reader-args")
+    c17.rule_prefix_only(ctx, R="C06/reader-prefix-only")
